@@ -834,6 +834,71 @@ def run(ctx):
         if o["rule"] == "C04-R3" and o["key"].startswith("invalid-only-for-protocol-reasons"):
             res.check(o["ok"], "C13-R8", o["key"], o["loc"], o["detail"], o["detail"])
     res.floor("C13-R8", 7)
+    # the data comes back whenever there is some: the pointer getter of a (pointer, length) pair answers nullptr only when its own length
+    # getter says 0 / the payload has no bytes behind the header — not when some other field happens to be 0
+    res.rule("C13-R9", "view pairs hand the stored data out: a data pointer getter returns nullptr only on paths that have found the pair's own length "
+                        "getter (or the payload's size) to be zero")
+    from rules import c03 as _c03
+    n9 = 0
+    for cls in _c03.CLASSES:
+        q = NS + cls
+        for pg, lg in _c03.VIEWS[cls]:
+            ptrf = _c03.find_method(fb, q, pg, const=True)
+            lenf = _c03.find_method(fb, q, lg, const=True)
+            if ptrf is None or lenf is None or not ptrf.cfg_raw:
+                continue
+            lens_ok = {lenf.name} | {g2.name for g2 in fb.reachable_from([lenf]).values() if g2.rec and (g2.rec == lenf.rec or g2.rec in fb.bases_of(lenf.rec))}
+            bad9 = None
+            npaths = 0
+            for pth in paths.enumerate_paths(ptrf):
+                if pth.end != "exit":
+                    continue
+                v = paths.returned_value(pth)
+                if v is None or not paths.is_null_value(v):
+                    continue
+                npaths += 1
+                why_null = False
+                for a in pth.atoms:
+                    nodes = [a[4], a[5]] if a[0] == "cmp" else [a[3]]
+                    names = set()
+                    for nd in nodes:
+                        ex = facts.expand(ptrf, nd)
+                        names |= called_names(ex)
+                        if any(fb.is_payload_buffer(x.get("obj", {})) for x in walk(ex) if x.get("k") == "call" and (x.get("callee") or {}).get("nm") in ("size", "empty")):
+                            names.add("<payload size>")
+                    if names & (lens_ok | {"<payload size>", NS + "Payload::getLength"}):
+                        why_null = True
+                if not why_null:
+                    bad9 = bad9 or "a path answers nullptr under `%s`" % ("; ".join(a[1][:50] for a in pth.atoms)[:120] or "no condition")
+            if npaths:
+                n9 += 1
+                res.check(bad9 is None, "C13-R9", "%s:%s/%s:null-only-when-empty" % (cls, pg, lg), ptrf.loc, "nullptr only when %s() is 0 (%d paths)" % (lg, npaths),
+                          "%s::%s(): %s, which does not look at %s(): data that setData stored is not handed out" % (cls, pg, bad9, lg))
+    # wire bytes are numbers 0..255: a byte read through a pointer to plain (signed) char and then widened — shifted, or-ed, added — drags its
+    # sign bit across the upper bits (a length word whose low byte is >= 0x80 reads back as 0xFFxx)
+    nsc = 0
+    for f in fb.all_functions():
+        if not f.rec or not (f.rec.startswith(NS) or f.rec.startswith("TECMP::")) or not f.body:
+            continue
+        for x in f.nodes():
+            if x.get("k") not in ("subscript", "un") or (x.get("k") == "un" and x.get("op") != "*"):
+                continue
+            pt = (strip_all_casts(x.get("base") if x.get("k") == "subscript" else x.get("e")).get("t") or {})
+            vt = x.get("t") or {}
+            if pt.get("k") in ("ptr", "array") and vt.get("k") == "int" and vt.get("bits") == 8 and vt.get("sg"):
+                par = f.parent(x)
+                widened = False
+                while par is not None and par.get("k") == "cast":
+                    if par.get("ck") == "IntegralCast" and (par.get("t") or {}).get("bits", 8) > 8:
+                        widened = True
+                    par = f.parent(par)
+                if widened and par is not None and par.get("k") in ("bin", "cassign", "assign", "decl", "return", "call"):
+                    nsc += 1
+                    res.bad("C13-R6", "%s:signed-byte-read@%s" % (f.name.replace(NS, ""), (x.get("loc") or "").split(":", 1)[-1]), x.get("loc"),
+                            "%s reads a payload byte through a pointer to signed char and widens it (`%s`): bytes >= 0x80 sign-extend, so a length or "
+                            "field whose byte has the top bit set reads back with its upper bits all ones" % (f.name, canon(par)[:70]))
+    if not nsc:
+        res.ok("C13-R6", "bytes-read-unsigned", "", "no payload byte is read through a signed char and widened")
     from rules import readers
     n7 = readers.interface_reader_positions(fb, res, "C13-R7")
     n7 += readers.interface_builder_size(fb, res, "C13-R7")
